@@ -63,7 +63,7 @@ def src_once(check, proj):
             R = [A.sym("R%d" % i) for i in range(3)]
             srcs = [OpaqueFn("S%d" % i) if on else None for i, on in enumerate(pattern)]
             so = SelfObj(c, {"neq": 3, "model": ObjStub("model", {"source": srcs}), "mesh": ObjStub("mesh", {"centers": lambda: xc}),
-                             "qdata": list(qd), "residual": list(R)})
+                             "qdata": list(qd), "pdata": [A.sym("prim%d" % i) for i in range(3)], "residual": list(R)})
             it.call_function(f, [so])
             inplace += it.ev.inplace_owned
             res = so.attrs["residual"]
